@@ -777,7 +777,20 @@ impl<'a> VisitMut for Rw<'a> {
                                 }
                             }));
                         }
-                        _ => {}
+                        // any other iterator expression: explicit `loop` over `next()` (the unit supplies the specification of the
+                        // iterator's `next`); `continue` in the body then continues the `loop`
+                        other => {
+                            let it = self.fresh("it");
+                            repl = Some(parse_quote!({
+                                let mut #it = core::iter::IntoIterator::into_iter(#other);
+                                loop {
+                                    match #it.next() {
+                                        Some(#pat) => { #(#stmts)* }
+                                        None => { break; }
+                                    }
+                                }
+                            }));
+                        }
                     }
                 }
             }
